@@ -1,0 +1,31 @@
+//go:build verif
+
+package fuse
+
+import (
+	"bazil.org/fuse/fs"
+)
+
+// Hooks for the deterministic-simulation harness in /verif. Only compiled with
+// the "verif" build tag; see verif_off.go for the no-op counterparts.
+
+// VerifInvalidate, if set, observes every kernel cache invalidation issued by
+// a FileSystem after the target node has been resolved. kind is one of "data"
+// (node data, size<0 means whole file) or "entry" (directory entry by name).
+var VerifInvalidate func(fsys *FileSystem, kind string, node fs.Node, name string, off, size int64)
+
+func verifInvalidate(fsys *FileSystem, kind string, node fs.Node, name string, off, size int64) {
+	if fn := VerifInvalidate; fn != nil {
+		fn(fsys, kind, node, name, off, size)
+	}
+}
+
+// VerifAttachNullServer attaches a FUSE server without a kernel connection so
+// that the file system can be driven in-process without being mounted. Every
+// invalidation is answered with ErrNotCached as an unmounted kernel would.
+func (fsys *FileSystem) VerifAttachNullServer() {
+	fsys.server = fs.New(nil, nil)
+}
+
+// VerifRoot returns the root node of the file system.
+func (fsys *FileSystem) VerifRoot() *RootNode { return fsys.root }
